@@ -39,8 +39,17 @@ TRead ==
           /\ Tag("C15.parse_msg.conforms", Ev.res = ParseIdx(F, Ev.cut, Ev.idx))
   /\ UNCHANGED z /\ Adv
 
+\* C14: reads of corrupted files - number and kind of result as the reader model says
+TReadN ==
+  /\ IsEv("readn")
+  /\ Tag("C14.capture.no-exception", Ev.exc = "")
+  /\ IF Ev.kind = "all"
+     THEN Tag("C14.capture.parse_all", LET r == ParseAll(F, Len(F), Ev.skip, Ev.count) IN r.t = Ev.res.t /\ Len(r.at) = Ev.res.n)
+     ELSE Tag("C14.capture.parse_msg", ParseIdx(F, Len(F), Ev.idx).t = Ev.res.t)
+  /\ UNCHANGED z /\ Adv
+
 TInit == KInit /\ z = 0
-TNext == TFull \/ TRead
+TNext == TFull \/ TRead \/ TReadN
 TSpec == TInit /\ [][TNext]_<<z, kvars>>
 Post == WriteVerdicts
 =============================================================================
